@@ -96,6 +96,8 @@ type ProviderSpec struct {
 type Return struct {
 	Type        types.Type
 	ASTTypeExpr ast.Expr
+	// ReferencedImports are the imports the type expression mentions
+	ReferencedImports map[string]*Import
 }
 
 // BuildDirective represents a kessoku.Inject call.
